@@ -530,7 +530,7 @@ def intersection(*args, **kwargs):
 
                 for i, (c, p) in enumerate(self.fibers[0].__iter__(tick=False)):
                     if leader_traced:
-                        Metrics.addUse(rank, c, i, type_=traces[0])
+                        Metrics.addUse(rank, c, _trace_pos(self.fibers[0], c, i), type_=traces[0])
 
                     payloads = [p]
                     for j, fiber in enumerate(self.fibers[1:]):
@@ -629,6 +629,23 @@ def _get_next(iter_):
         return (None, None)
 
     return CoordPayload(coord, payload)
+
+def _trace_pos(fiber, coord, count):
+    """Position to report in a trace for the element of `fiber` at `coord`
+
+    For an eager fiber this is the element's position in the fiber (explicit
+    empty elements occupy positions too); for a lazy fiber it is `count`,
+    the element's index in the sequence the fiber produces.
+    """
+    if fiber.isLazy():
+        return count
+
+    try:
+        pos = fiber.getPosition(coord)
+    except TypeError:
+        pos = None
+
+    return count if pos is None else pos
 
 #
 # Merge methods
@@ -759,11 +776,11 @@ def __and__(self, other):
                 if a_coord == b_coord:
 
                     if a_traced:
-                        Metrics.addUse(rank, a_coord, a_pos, type_=a_trace)
+                        Metrics.addUse(rank, a_coord, _trace_pos(self.a_fiber, a_coord, a_pos), type_=a_trace)
                         a_pos += 1
 
                     if b_traced:
-                        Metrics.addUse(rank, b_coord, b_pos, type_=b_trace)
+                        Metrics.addUse(rank, b_coord, _trace_pos(self.b_fiber, b_coord, b_pos), type_=b_trace)
                         b_pos += 1
 
                     yield succ_yield(a_coord, b_coord), (a_payload, b_payload)
@@ -775,7 +792,7 @@ def __and__(self, other):
 
                 if a_coord < b_coord:
                     if a_traced:
-                        Metrics.addUse(rank, a_coord, a_pos, type_=a_trace)
+                        Metrics.addUse(rank, a_coord, _trace_pos(self.a_fiber, a_coord, a_pos), type_=a_trace)
                         a_pos += 1
 
                     if is_collecting:
@@ -787,7 +804,7 @@ def __and__(self, other):
 
                 if a_coord > b_coord:
                     if b_traced:
-                        Metrics.addUse(rank, b_coord, b_pos, type_=b_trace)
+                        Metrics.addUse(rank, b_coord, _trace_pos(self.b_fiber, b_coord, b_pos), type_=b_trace)
                         b_pos += 1
 
                     if is_collecting:
@@ -798,10 +815,10 @@ def __and__(self, other):
                     continue
 
             if a_traced and a_coord is not None:
-                Metrics.addUse(rank, a_coord, a_pos, type_=a_trace)
+                Metrics.addUse(rank, a_coord, _trace_pos(self.a_fiber, a_coord, a_pos), type_=a_trace)
 
             if b_traced and b_coord is not None:
-                Metrics.addUse(rank, b_coord, b_pos, type_=b_trace)
+                Metrics.addUse(rank, b_coord, _trace_pos(self.b_fiber, b_coord, b_pos), type_=b_trace)
 
             if is_collecting:
                 Metrics.incIter(rank)
@@ -1152,7 +1169,7 @@ def __lshift__(self, other, start_pos=None):
 
                     # Read the B coordinate
                     if b_traced:
-                        Metrics.addUse(rank, b_coord, b_pos, type_=b_trace)
+                        Metrics.addUse(rank, b_coord, _trace_pos(self.b_fiber, b_coord, b_pos), type_=b_trace)
 
                     # If we are inserting into a compressed fiber, we need
                     # to search for the coordinate
